@@ -119,6 +119,57 @@ fn main() {
                 }
             }
         }
+        "miri-c14" => {
+            // vcheck miri-c14 <from> <to> <seed>: cases [from, to) of C14's section `ops` (same generator, same
+            // per-case RNG seeds, same oracle as `vcheck run C14`), evaluated in-process and strictly. Meant to
+            // be executed by `cargo +nightly miri run` in a build WITHOUT the bounds-assertion hook, so that an
+            // out-of-bounds unchecked read is reported by Miri itself (harness/miri_c14.sh).
+            // Building a proptest value tree costs Miri ~40 s per case, so the sample is decoded with C14's
+            // structure-aware byte decoder (the one the libFuzzer target uses) from a byte tape that is a pure
+            // function of (VERIF_SEED, index): SplitMix64 over the engine's per-case seed.
+            use std::io::Write;
+            let num = |i: usize| -> u64 { args.get(i).and_then(|s| s.parse().ok()).unwrap_or_else(|| usage()) };
+            let (from, to, seed) = (num(1), num(2), num(3));
+            vcheck::engine::panics::install_hook();
+            let mut nontrivial = 0u64;
+            for idx in from..to {
+                println!("MIRI-CASE {}", idx);
+                let _ = std::io::stdout().flush();
+                let cs = vcheck::engine::ctx::case_seed_for("C14", seed, "miri-ops", idx);
+                let mut x = u64::from_le_bytes(cs[..8].try_into().unwrap());
+                let mut next = || {
+                    x = x.wrapping_add(0x9E3779B97F4A7C15);
+                    let mut z = x;
+                    z = (z ^ (z >> 30)).wrapping_mul(0xBF58476D1CE4E5B9);
+                    z = (z ^ (z >> 27)).wrapping_mul(0x94D049BB133111EB);
+                    z ^ (z >> 31)
+                };
+                let len = 24 + (next() % 200) as usize;
+                let mut tape = Vec::with_capacity(len + 8);
+                while tape.len() < len {
+                    tape.extend_from_slice(&next().to_le_bytes());
+                }
+                tape.truncate(len);
+                let case = match vcheck::props::c14::case_from_bytes(&tape) {
+                    Ok(c) => c,
+                    Err(_) => continue,
+                };
+                let mut nt = false;
+                let r = vcheck::engine::fuzz::eval_case(|rec| {
+                    let r = vcheck::props::c14::check_case(&case, rec);
+                    nt = rec.is_nontrivial();
+                    r
+                });
+                if nt {
+                    nontrivial += 1;
+                }
+                if let Err(f) = r {
+                    println!("MIRI-FAIL {} sig={} msg={}", idx, f.sig, f.msg.replace('\n', " "));
+                    std::process::exit(1);
+                }
+            }
+            println!("MIRI-DONE cases={} nontrivial={}", to.saturating_sub(from), nontrivial);
+        }
         "replay" => {
             let f = args.get(1).cloned().unwrap_or_else(|| usage());
             std::process::exit(parent::replay(&PathBuf::from(f)));
